@@ -417,7 +417,7 @@ func (run *propRun) report(id, tier string, seed int, start time.Time, update bo
 			continue
 		}
 		inLedger := ledger == nil || func() bool { _, ok := ledger.Keys[a.Key]; return ok }()
-		if !inLedger && a.Kind != "nopanic" {
+		if !inLedger && a.Kind != "nopanic" && a.Kind != "term" {
 			run.notes = append(run.notes, "undischarged obligation outside the ledger (not claimed): "+a.Key)
 			run.unclaimed += n - okN
 			continue
